@@ -704,3 +704,350 @@ Proof.
       rewrite Q, Edrt. apply Hkeep0; [exact Hg0|congruence|rewrite <- P; exact Hd].
     + rewrite Ex in Hg; discriminate.
 Qed.
+
+Lemma hist_init : hist [] init.
+Proof. intros c cm old H; discriminate. Qed.
+
+Lemma run_hist p tr pre s s' :
+  dinv s -> invKAB s -> hist pre s -> run (step_gen p) s tr = Some s' -> hist (pre ++ tr) s'.
+Proof.
+  revert pre s; induction tr as [|e tr IH]; intros pre s Hd Hk Hh; cbn [run].
+  - intros E; injection E as <-. rewrite app_nil_r. exact Hh.
+  - destruct (step_gen p s e) as [s1|] eqn:E; [|discriminate]. intros R.
+    change (e :: tr) with ([e] ++ tr). rewrite app_assoc. apply IH with s1; [| | |exact R].
+    + exact (step_dinv _ _ _ _ Hd E).
+    + exact (step_invKAB _ _ _ _ Hk E).
+    + exact (step_hist _ _ _ _ _ Hd (proj1 Hk) Hh E).
+Qed.
+
+(** ** Reading the trace: durations, replaced balancer, its targets *)
+
+Lemma params_drt p pre s1 eP c dt drt fa :
+  run (step_gen p) init pre = Some s1 -> In eP pre -> e_k eP = KParams c dt drt fa ->
+  exists cm, nget (cmds s1) c = Some cm /\ c_drt cm = drt.
+Proof.
+  intros Hrun Hin HP. apply in_split in Hin. destruct Hin as (a & b & ->).
+  change (a ++ eP :: b) with (a ++ [eP] ++ b) in Hrun.
+  destruct (run_prefix _ _ _ _ _ Hrun) as (s0 & R0 & Hrun1).
+  destruct (run_prefix _ _ _ _ _ Hrun1) as (s2 & R1 & R2).
+  cbn [run] in R1. destruct (step_gen p s0 eP) as [s2'|] eqn:E; [|discriminate]. injection R1 as ->.
+  unfold step_gen in E. destruct (e_t eP <? clock s0); [discriminate|]. cbv zeta in E. rewrite HP in E.
+  destruct (nget (cmds (upd_clock s0 (e_t eP))) c) as [cm|]; [|discriminate].
+  destruct (c_phase cm); try discriminate. destruct (own_time_ok _ _ _); [|discriminate]. injection E as <-.
+  assert (G : nget (cmds (put (upd_clock s0 (e_t eP)) c
+                (mkC (c_kind cm) (c_issue cm) dt drt PStart (e_t eP) None (e_t eP) [] None (c_new cm) (c_repl cm)))) c
+              = Some (mkC (c_kind cm) (c_issue cm) dt drt PStart (e_t eP) None (e_t eP) [] None (c_new cm) (c_repl cm)))
+    by (cbn [cmds put upd_cmds]; apply nget_nset_same).
+  destruct (run_keeps _ _ _ _ R2 _ _ G) as (cm2 & G2 & L). exists cm2. split; [exact G2|].
+  destruct L as (_ & _ & L3 & _). destruct L3 as (_ & L4 & _); [cbn; discriminate|]. exact L4.
+Qed.
+
+Lemma slot_repl p pre s1 eS c svc ro lb old :
+  run (step_gen p) init pre = Some s1 -> In eS pre -> e_by eS = ACmd c -> e_k eS = KSlot svc ro lb (Some old) ->
+  exists cm, nget (cmds s1) c = Some cm /\ c_repl cm = Some (Some old).
+Proof.
+  intros Hrun Hin Hby HS. apply in_split in Hin. destruct Hin as (a & b & ->).
+  change (a ++ eS :: b) with (a ++ [eS] ++ b) in Hrun.
+  destruct (run_prefix _ _ _ _ _ Hrun) as (s0 & R0 & Hrun1).
+  destruct (run_prefix _ _ _ _ _ Hrun1) as (s2 & R1 & R2).
+  cbn [run] in R1. destruct (step_gen p s0 eS) as [s2'|] eqn:E; [|discriminate]. injection R1 as ->.
+  destruct (slot_by_cmd _ _ _ _ _ _ _ _ _ E Hby HS) as (cm1 & G1 & N1).
+  destruct (run_keeps _ _ _ _ R2 _ _ G1) as (cm2 & G2 & L). exists cm2. split; [exact G2|].
+  destruct L as (_ & _ & _ & _ & L5 & _). exact (L5 _ N1).
+Qed.
+
+Lemma new_lb_targets st lb ts o st1 : new_lb st lb ts o = Some st1 -> lb_targets st1 lb = ts /\ has_lb st1 lb.
+Proof.
+  unfold new_lb. destruct (nget (lbs st) lb); [discriminate|]. destruct (existsb _ ts); [discriminate|].
+  intros H; injection H as <-. unfold lb_targets, has_lb. cbn [lbs upd_lbs upd_tgts]. rewrite nget_nset_same.
+  split; [reflexivity|discriminate].
+Qed.
+
+Lemma lbnew_targets_step p s e s1 lb ts :
+  step_gen p s e = Some s1 -> e_k e = KLbNew lb ts -> lb_targets s1 lb = ts /\ has_lb s1 lb.
+Proof.
+  intros H Hk. destruct (e_by e) eqn:Hby.
+  2: { destruct (lbnew_by_cmd _ _ _ _ _ _ _ H Hby Hk) as (_ & _ & _ & T & Hh). split; assumption. }
+  all: unfold step_gen in H; destruct (e_t e <? clock s); [discriminate|]; cbv zeta in H; rewrite Hk, Hby in H;
+       exact (new_lb_targets _ _ _ _ _ H).
+Qed.
+
+Lemma lbnew_targets p pre s1 eN lb ts :
+  run (step_gen p) init pre = Some s1 -> In eN pre -> e_k eN = KLbNew lb ts -> lb_targets s1 lb = ts.
+Proof.
+  intros Hrun Hin HN. apply in_split in Hin. destruct Hin as (a & b & ->).
+  change (a ++ eN :: b) with (a ++ [eN] ++ b) in Hrun.
+  destruct (run_prefix _ _ _ _ _ Hrun) as (s0 & R0 & Hrun1).
+  destruct (run_prefix _ _ _ _ _ Hrun1) as (s2 & R1 & R2).
+  cbn [run] in R1. destruct (step_gen p s0 eN) as [s2'|] eqn:E; [|discriminate]. injection R1 as ->.
+  destruct (lbnew_targets_step _ _ _ _ _ _ E HN) as [T Hh].
+  rewrite (lb_targets_ext _ _ _ (run_ext _ _ _ _ R2) Hh). exact T.
+Qed.
+
+(** ** (T1 i) a redeploy that returns Ok has begun a Drain call, with its own drain
+       timeout, for every target of the balancer it replaced — after its install *)
+
+Lemma deploy_return_phase p s e s' c cm old :
+  dinv s -> step_gen p s e = Some s' -> e_k e = KReturn c CROk ->
+  nget (cmds s) c = Some cm -> c_repl cm = Some (Some old) -> c_phase cm = PDone.
+Proof.
+  intros [_ Hall] Hs Hk Hc Hr.
+  destruct (return_phase _ _ _ _ _ _ Hs Hk) as (cm0 & Hc0 & _ & _ & Hro). rewrite Hc in Hc0; injection Hc0 as <-.
+  pose proof (all_nget _ _ _ _ Hall Hc) as (_ & _ & Hph).
+  unfold return_ok in Hro.
+  destruct (c_phase cm) as [| | | | | | | | | |[x|]| | | |] eqn:P;
+    destruct (is_deploy (c_kind cm)); destruct (is_pause_stop (c_kind cm)); try discriminate; try reflexivity;
+    try congruence;
+    try (match type of Hph with _ /\ _ => destruct Hph as [_ Hph]; congruence end).
+Qed.
+
+Lemma deploy_return_drains_begun_gen p pre eR post s c eP dt drt fa eS svc ro lb old eN ts :
+  run (step_gen p) init (pre ++ eR :: post) = Some s ->
+  e_k eR = KReturn c CROk ->
+  In eP pre -> e_k eP = KParams c dt drt fa ->
+  In eS pre -> e_by eS = ACmd c -> e_k eS = KSlot svc ro lb (Some old) ->
+  In eN pre -> e_k eN = KLbNew old ts ->
+  exists p1 eI p2 sv, pre = p1 ++ eI :: p2 /\ e_by eI = ACmd c /\ e_k eI = KInstall sv true /\
+    forall t, In t ts -> exists eD orig, In eD p2 /\ e_k eD = KDrainBegin t orig drt.
+Proof.
+  intros Hrun HR HinP HP HinS HbyS HS HinN HN.
+  change (pre ++ eR :: post) with (pre ++ [eR] ++ post) in Hrun.
+  destruct (run_prefix _ _ _ _ _ Hrun) as (s1 & R0 & Hrun1).
+  destruct (run_prefix _ _ _ _ _ Hrun1) as (s2 & R1 & _).
+  cbn [run] in R1. destruct (step_gen p s1 eR) as [s2'|] eqn:E; [|discriminate]. clear R1.
+  assert (D1 : dinv s1) by (eapply run_dinv; [apply dinv_init|exact R0]).
+  assert (K1 : invKAB s1) by (eapply run_invKAB; [apply invKAB_init|exact R0]).
+  pose proof (run_hist _ _ _ _ _ dinv_init invKAB_init hist_init R0) as H1. cbn [app] in H1.
+  destruct (slot_repl _ _ _ _ _ _ _ _ _ R0 HinS HbyS HS) as (cm & Hc & Hr).
+  destruct (params_drt _ _ _ _ _ _ _ _ R0 HinP HP) as (cm0 & Hc0 & Hdrt). rewrite Hc in Hc0; injection Hc0 as <-.
+  pose proof (deploy_return_phase _ _ _ _ _ _ _ D1 E HR Hc Hr) as Hph.
+  assert (Hd : done_phase (c_phase cm)) by (rewrite Hph; exact I).
+  destruct (H1 _ _ _ Hc Hr Hd) as (p1 & eI & p2 & sv & Epre & HbyI & HkI & Hall).
+  exists p1, eI, p2, sv. repeat split; try assumption.
+  intros t Ht. rewrite (lbnew_targets _ _ _ _ _ _ R0 HinN HN) in Hall.
+  destruct (Hall t Ht) as [Hm|(eD & orig & HinD & HkD)].
+  - exfalso. destruct (proj1 (proj2 K1) _ _ Hc) as [Pe|(o & Po)]; [rewrite Pe in Hm; discriminate|congruence].
+  - exists eD, orig. rewrite <- Hdrt. split; assumption.
+Qed.
+
+(** ** (T1 ii / T2) following one Drain call forward through the trace *)
+
+(** the open Drain call [d] of goroutine [g] after a step that does not end it *)
+Definition dkeep (e : event) (g : nat) (d d' : drain) : Prop :=
+  d_owners d' = d_owners d /\ d_t d' = d_t d /\
+  (d_cancel d = None -> d_cancel d' <> None -> goid (e_by e) = g /\ e_k e = KDrainCancelRest (d_t d)) /\
+  (goid (e_by e) = g -> forall t o n, e_k e <> KStateSet t o n).
+
+Lemma dkeep_refl e g d : (goid (e_by e) = g -> forall t o n, e_k e <> KStateSet t o n) -> dkeep e g d d.
+Proof. intros H. split; [reflexivity|]. split; [reflexivity|]. split; [intros Hn Hs; contradiction|exact H]. Qed.
+
+Lemma nget_done_req ds t rs now g :
+  nget (drains_done_req ds t rs now) g =
+  match nget ds g with Some d => Some (drain_done_req t rs now d) | None => None end.
+Proof.
+  unfold drains_done_req. induction ds as [|[g0 d0] ds IH]; cbn [map nget fst snd]; [reflexivity|].
+  destruct (Nat.eqb g g0); [reflexivity|exact IH].
+Qed.
+
+Lemma done_req_fields t rs now d :
+  d_owners (drain_done_req t rs now d) = d_owners d /\ d_t (drain_done_req t rs now d) = d_t d /\
+  d_cancel (drain_done_req t rs now d) = d_cancel d.
+Proof. unfold drain_done_req. destruct (_ && _); repeat split. Qed.
+
+Lemma tdrain_fwd p st0 e s' g d :
+  step_gen p st0 e = Some s' -> nget (drains st0) g = Some d ->
+  (exists d', nget (drains s') g = Some d' /\ dkeep e g d d') \/
+  (goid (e_by e) = g /\ d_cancel d <> None /\ exists o n, e_k e = KStateSet (d_t d) o n).
+Proof.
+  intros Hs Hd. revert Hs. unfold step_gen.
+  destruct (e_t e <? clock st0); [discriminate|].
+  change (drains st0) with (drains (upd_clock st0 (e_t e))) in Hd.
+  set (st := upd_clock st0 (e_t e)) in *. cbv zeta.
+  assert (Hfr : forall s1, drains s1 = drains st -> (forall t o n, e_k e <> KStateSet t o n) ->
+                           (exists d', nget (drains s1) g = Some d' /\ dkeep e g d d') \/
+                           (goid (e_by e) = g /\ d_cancel d <> None /\ exists o n, e_k e = KStateSet (d_t d) o n)).
+  { intros s1 E Hk. left. exists d. split; [rewrite E; exact Hd|]. apply dkeep_refl. intros _; exact Hk. }
+  assert (Hown : forall c cm, own_step p st c cm e = Some s' -> (forall t o n, e_k e <> KStateSet t o n) ->
+                              (exists d', nget (drains s') g = Some d' /\ dkeep e g d d') \/
+                              (goid (e_by e) = g /\ d_cancel d <> None /\ exists o n, e_k e = KStateSet (d_t d) o n)).
+  { intros c cm H Hk. destruct (own_step_frame _ _ _ _ _ _ H) as (_ & _ & F & _). exact (Hfr _ F Hk). }
+  destruct (e_k e) eqn:Hk.
+  all: try (destruct (e_by e) eqn:Hby;
+            [inv_some; apply Hfr; first [reflexivity|intros ? ? ?; discriminate]
+            |destruct (nget (cmds st) c) eqn:Hc;
+             [intros H; eapply Hown; [exact H|intros ? ? ?; discriminate]|inv_some; apply Hfr; first [reflexivity|intros ? ? ?; discriminate]]
+            |inv_some; apply Hfr; first [reflexivity|intros ? ? ?; discriminate]
+            |inv_some; apply Hfr; first [reflexivity|intros ? ? ?; discriminate]]; fail).
+  all: try (step_destruct; try (inv_some; fail); inv_some; apply Hfr; first [reflexivity|intros ? ? ?; discriminate]).
+  - (* KReturn *)
+    destruct (nget (cmds st) c) as [cm|]; [|discriminate].
+    destruct (actor_eqb (e_by e) (ACmd c)); [|discriminate].
+    intros H. eapply Hown; [exact H|intros ? ? ?; discriminate].
+  - (* KLbNew *)
+    destruct (e_by e) eqn:Hby;
+      [|destruct (nget (cmds st) c) eqn:Hc; [intros H; eapply Hown; [exact H|intros ? ? ?; discriminate]|inv_some]| |];
+      intros H; destruct (new_lb_frame _ _ _ _ _ H) as (_ & F2 & _); apply Hfr; first [exact F2|intros ? ? ?; discriminate].
+  - (* KLbDispose *)
+    destruct (e_by e) eqn:Hby;
+      [|destruct (nget (cmds st) c) eqn:Hc; [intros H; eapply Hown; [exact H|intros ? ? ?; discriminate]|inv_some]| |];
+      inv_some; apply Hfr; first [exact (proj1 (proj2 (mark_disposed_frame _ _)))|intros ? ? ?; discriminate].
+  - (* KEnd *)
+    inv_some. left. eexists. split.
+    + cbn [drains upd_drains]. rewrite nget_done_req.
+      match goal with |- context [match nget (drains ?X) g with _ => _ end] =>
+        assert (E : nget (drains X) g = Some d) by (destruct (nget (tgts _) t); exact Hd); rewrite E end.
+      reflexivity.
+    + destruct (done_req_fields t [r] (e_t e) d) as (F1 & F2 & F3). unfold dkeep. rewrite F1, F2, F3.
+      split; [reflexivity|]. split; [reflexivity|]. split; [intros Hn Hs; contradiction|].
+      intros _ ? ? ?. rewrite Hk. discriminate.
+  - (* KProbeStop *)
+    destruct (e_by e) eqn:Hby;
+      [|destruct (nget (cmds st) c) eqn:Hc; [intros H; eapply Hown; [exact H|intros ? ? ?; discriminate]|inv_some]| |];
+      inv_some; apply Hfr; first [exact (proj1 (proj2 (set_probing_frame _ _ _)))|intros ? ? ?; discriminate].
+  - (* KStateSet *)
+    destruct (Nat.eq_dec (goid (e_by e)) g) as [Eg|Ng].
+    + rewrite Eg, Hd. destruct (d_cancel d) as [ct|] eqn:Hct; [|discriminate].
+      destruct (_ && _) eqn:Hcond; [|discriminate]. intros _. right.
+      apply andb_prop in Hcond. destruct Hcond as [Ht _]. apply Nat.eqb_eq in Ht.
+      split; [reflexivity|]. split; [discriminate|]. exists orig, new. rewrite Ht. reflexivity.
+    + destruct (nget (drains st) (goid (e_by e))) as [d0|] eqn:Hd0.
+      * destruct (d_cancel d0); [|discriminate]. destruct (_ && _); [|discriminate].
+        destruct (notify st d0 (e_t e)) as [cs|]; [|discriminate]. inv_some.
+        left. exists d. split; [cbn [drains upd_drains]; rewrite nget_ndel_other; [exact Hd|intros E; apply Ng; symmetry; exact E]|].
+        apply dkeep_refl. intros E; contradiction.
+      * inv_some. left. exists d. split; [exact Hd|]. apply dkeep_refl. intros E; contradiction.
+  - (* KDrainBegin *)
+    destruct orig.
+    all: try (inv_some; apply Hfr; first [reflexivity|intros ? ? ?; discriminate]).
+    all: destruct (nget (drains st) (goid (e_by e))) eqn:Hd0; [discriminate|].
+    all: assert (Ng : g <> goid (e_by e)) by (intros E; rewrite <- E in Hd0; rewrite Hd in Hd0; discriminate).
+    all: destruct (candidates st t (e_t e) timeout) as [|c0 [|c1 cs]]; [destruct (parks st); [|discriminate]|..]; inv_some.
+    all: left; exists d; (split; [cbn [drains set_drain upd_drains upd_cmds]; rewrite nget_nset_other; [exact Hd|exact Ng]|]).
+    all: apply dkeep_refl; intros _ ? ? ?; rewrite Hk; discriminate.
+  - (* KDrainSnapshot *)
+    destruct (nget (drains st) (goid (e_by e))) as [d0|] eqn:Hd0; [|discriminate].
+    destruct (d_snap d0); [discriminate|]. destruct (_ && _) eqn:Hcond; [|discriminate]. inv_some.
+    apply andb_prop in Hcond. destruct Hcond as [Ht _]. apply Nat.eqb_eq in Ht.
+    left. cbn [drains set_drain upd_drains]. rewrite nget_nset.
+    destruct (Nat.eqb g (goid (e_by e))) eqn:Eg.
+    + apply Nat.eqb_eq in Eg. rewrite <- Eg in Hd0. rewrite Hd in Hd0. injection Hd0 as <-.
+      eexists. split; [reflexivity|]. unfold dkeep. cbn [d_owners d_t d_cancel].
+      split; [reflexivity|]. split; [symmetry; exact Ht|]. split; [intros _ Hs; contradiction|].
+      intros _ ? ? ?. rewrite Hk. discriminate.
+    + exists d. split; [exact Hd|]. apply dkeep_refl. intros _ ? ? ?. rewrite Hk. discriminate.
+  - (* KDrainDeadline *)
+    destruct (nget (drains st) (goid (e_by e))) as [d0|] eqn:Hd0; [|discriminate].
+    destruct (d_snap d0); [|discriminate]. destruct (d_cancel d0); [discriminate|].
+    destruct (_ && _) eqn:Hcond; [|discriminate]. inv_some.
+    apply andb_prop in Hcond. destruct Hcond as [Ht _]. apply andb_prop in Ht. destruct Ht as [Ht _]. apply Nat.eqb_eq in Ht.
+    left. cbn [drains set_drain upd_drains]. rewrite nget_nset.
+    destruct (Nat.eqb g (goid (e_by e))) eqn:Eg.
+    + apply Nat.eqb_eq in Eg. rewrite <- Eg in Hd0. rewrite Hd in Hd0. injection Hd0 as <-.
+      eexists. split; [reflexivity|]. unfold dkeep. cbn [d_owners d_t d_cancel].
+      split; [reflexivity|]. split; [symmetry; exact Ht|]. split; [intros _ Hs; contradiction|].
+      intros _ ? ? ?. rewrite Hk. discriminate.
+    + exists d. split; [exact Hd|]. apply dkeep_refl. intros _ ? ? ?. rewrite Hk. discriminate.
+  - (* KDrainCancelRest *)
+    destruct (nget (drains st) (goid (e_by e))) as [d0|] eqn:Hd0; [|discriminate].
+    destruct (d_snap d0) as [sn|]; [|discriminate]. destruct (d_cancel d0); [discriminate|].
+    destruct (_ && _) eqn:Hcond; [|discriminate]. inv_some.
+    apply andb_prop in Hcond. destruct Hcond as [Ht _]. apply andb_prop in Ht. destruct Ht as [Ht _]. apply Nat.eqb_eq in Ht.
+    left. unfold set_drain. cbn [drains upd_drains]. rewrite nget_nset.
+    destruct (Nat.eqb g (goid (e_by e))) eqn:Eg.
+    + apply Nat.eqb_eq in Eg. rewrite <- Eg in Hd0. rewrite Hd in Hd0. injection Hd0 as <-.
+      eexists. split; [reflexivity|]. unfold dkeep. cbn [d_owners d_t d_cancel].
+      split; [reflexivity|]. split; [symmetry; exact Ht|]. split.
+      * intros _ _. split; [symmetry; exact Eg|]. rewrite Hk, Ht. reflexivity.
+      * intros _ ? ? ?. rewrite Hk. discriminate.
+    + rewrite nget_done_req.
+      match goal with |- context [match nget (drains ?X) g with _ => _ end] =>
+        assert (E2 : nget (drains X) g = Some d) by (destruct (nget (tgts _) t); exact Hd); rewrite E2 end.
+      eexists. split; [reflexivity|].
+      match goal with |- dkeep _ _ _ (drain_done_req ?a ?b ?c _) => destruct (done_req_fields a b c d) as (F1 & F2 & F3) end.
+      unfold dkeep. rewrite F1, F2, F3.
+      split; [reflexivity|]. split; [reflexivity|]. split; [intros Hn Hs; contradiction|].
+      intros _ ? ? ?. rewrite Hk. discriminate.
+Qed.
+
+(** no state-set by goroutine [g] among these events *)
+Definition no_stateset_by (g : nat) (tr : trace) : Prop :=
+  forall e', In e' tr -> goid (e_by e') = g -> forall t o n, e_k e' <> KStateSet t o n.
+
+(** the Drain call of [g] open in [s] is still open after [tr] — or [tr] contains its end:
+    the first state-set by [g], on the call's target, after its "cancel the rest" *)
+Definition ended_in (g t : nat) (need_cancel : Prop) (tr : trace) : Prop :=
+  exists q1 eE q2 o n, tr = q1 ++ eE :: q2 /\ goid (e_by eE) = g /\ e_k eE = KStateSet t o n /\
+    no_stateset_by g q1 /\
+    (need_cancel -> exists eC, In eC q1 /\ goid (e_by eC) = g /\ e_k eC = KDrainCancelRest t).
+
+Lemma tdrain_run p tr s s' g d :
+  run (step_gen p) s tr = Some s' -> nget (drains s) g = Some d ->
+  (exists d', nget (drains s') g = Some d' /\ d_owners d' = d_owners d /\ d_t d' = d_t d) \/
+  ended_in g (d_t d) (d_cancel d = None) tr.
+Proof.
+  revert s d; induction tr as [|e tr IH]; intros s d; cbn [run].
+  - intros E Hd; injection E as <-. left. exists d. repeat split. exact Hd.
+  - destruct (step_gen p s e) as [s1|] eqn:E; [|discriminate]. intros R Hd.
+    destruct (tdrain_fwd _ _ _ _ _ _ E Hd) as [(d1 & Hd1 & Ho & Ht & Hc & Hns)|(Hg & Hc & o & n & Hk)].
+    + destruct (IH _ _ R Hd1) as [(d' & Hd' & Ho' & Ht')|(q1 & eE & q2 & o & n & -> & Hg & Hk & Hno & Hcr)].
+      * left. exists d'. split; [exact Hd'|]. split; congruence.
+      * right. exists (e :: q1), eE, q2, o, n. split; [reflexivity|]. split; [exact Hg|]. split; [congruence|]. split.
+        -- intros e' [<-|Hin]; [exact Hns|exact (Hno _ Hin)].
+        -- intros Hnone. destruct (d_cancel d1) as [ct|] eqn:Hc1.
+           ++ destruct (Hc Hnone) as [Hge Hke]; [discriminate|]. exists e. split; [left; reflexivity|]. split; assumption.
+           ++ destruct (Hcr eq_refl) as (eC & Hin & HgC & HkC). exists eC. split; [right; exact Hin|]. split; [exact HgC|congruence].
+    + right. exists [], e, tr, o, n. split; [reflexivity|]. split; [exact Hg|]. split; [exact Hk|]. split.
+      * intros e' [].
+      * intros Hnone; contradiction.
+Qed.
+
+(** a Drain call that begins on a target that is not yet draining is opened with the owners the view infers *)
+Lemma begin_opens p s e s' t orig timeout :
+  step_gen p s e = Some s' -> e_k e = KDrainBegin t orig timeout -> orig <> TDraining ->
+  nget (drains s') (goid (e_by e)) =
+  Some (mkD t (e_t e) timeout None [] (e_t e) false None (begin_owners s t (e_t e) timeout)).
+Proof.
+  intros Hs Hk Ho. unfold step_gen in Hs. destruct (e_t e <? clock s); [discriminate|]. cbv zeta in Hs. rewrite Hk in Hs.
+  unfold begin_owners. change (candidates s t (e_t e) timeout) with (candidates (upd_clock s (e_t e)) t (e_t e) timeout).
+  change (certain s t) with (certain (upd_clock s (e_t e)) t).
+  destruct orig; [|contradiction Ho; reflexivity| |].
+  all: destruct (nget (drains (upd_clock s (e_t e))) (goid (e_by e))); [discriminate|].
+  all: destruct (candidates (upd_clock s (e_t e)) t (e_t e) timeout) as [|c0 [|c1 cs]];
+       [destruct (parks (upd_clock s (e_t e))); [|discriminate]|..]; injection Hs as <-.
+  all: cbn [drains set_drain upd_drains upd_cmds]; apply nget_nset_same.
+Qed.
+
+(** (T1 ii / T2) the Drain calls a returning command certainly started have ended *)
+Lemma owned_drain_ended_gen p pre eR post s c r p1 eB p2 sB t orig timeout :
+  run (step_gen p) init (pre ++ eR :: post) = Some s -> e_k eR = KReturn c r ->
+  pre = p1 ++ eB :: p2 -> run (step_gen p) init p1 = Some sB ->
+  e_k eB = KDrainBegin t orig timeout -> orig <> TDraining ->
+  In (c, true) (begin_owners sB t (e_t eB) timeout) ->
+  ended_in (goid (e_by eB)) t True p2.
+Proof.
+  intros Hrun HR -> RB HB Ho Hown.
+  replace ((p1 ++ eB :: p2) ++ eR :: post) with (p1 ++ [eB] ++ p2 ++ [eR] ++ post) in Hrun
+    by (rewrite <- app_assoc; reflexivity).
+  destruct (run_prefix _ _ _ _ _ Hrun) as (s0 & R0 & Hrun1). rewrite RB in R0; injection R0 as <-.
+  destruct (run_prefix _ _ _ _ _ Hrun1) as (sB' & R1 & Hrun2).
+  destruct (run_prefix _ _ _ _ _ Hrun2) as (s1 & R2 & Hrun3).
+  destruct (run_prefix _ _ _ _ _ Hrun3) as (s2 & R3 & _).
+  cbn [run] in R1. destruct (step_gen p sB eB) as [x|] eqn:EB; [|discriminate]. injection R1 as ->.
+  cbn [run] in R3. destruct (step_gen p s1 eR) as [x|] eqn:ER; [|discriminate]. clear R3.
+  pose proof (begin_opens _ _ _ _ _ _ _ EB HB Ho) as Hopen.
+  destruct (tdrain_run _ _ _ _ _ _ R2 Hopen) as [(d' & Hd' & Ho' & _)|Hend].
+  - exfalso. cbn [d_owners] in Ho'.
+    assert (K1 : invKAB s1).
+    { eapply run_invKAB; [|exact R2]. eapply step_invKAB; [|exact EB]. eapply run_invKAB; [apply invKAB_init|exact RB]. }
+    pose proof (return_no_open_drain _ _ _ _ _ _ K1 ER HR _ _ (nget_In _ _ _ Hd')) as Hno.
+    unfold owns in Hno. rewrite Ho' in Hno.
+    assert (Hyes : existsb (fun o => Nat.eqb (fst o) c && snd o) (begin_owners sB t (e_t eB) timeout) = true).
+    { apply existsb_exists. exists (c, true). split; [exact Hown|]. cbn [fst snd]. rewrite Nat.eqb_refl. reflexivity. }
+    rewrite Hyes in Hno. discriminate.
+  - cbn [d_t d_cancel] in Hend. destruct Hend as (q1 & eE & q2 & o & n & E & Hg & Hk & Hno & Hcr).
+    exists q1, eE, q2, o, n. repeat split; try assumption. intros _. exact (Hcr eq_refl).
+Qed.
+
+Lemma begin_owners_single s t now timeout c :
+  candidates s t now timeout = [c] -> certain s t c = true -> In (c, true) (begin_owners s t now timeout).
+Proof. intros Hc Hcert. unfold begin_owners. rewrite Hc, Hcert. left; reflexivity. Qed.
